@@ -59,7 +59,11 @@ pub fn run(ctx: &mut Ctx) {
         let root = ctx.work.join(format!("c11-{}", case));
         let dir = root.join("orig");
         std::fs::create_dir_all(&dir).unwrap();
-        let entry = match util::guarded(|| container::build(&dir, "c", &spec)) {
+        // recorded locations are file names: on some containers the separately located content packs have
+        // locations of the maximal length (213 bytes: `<name>.extraK.jbkc`, or `<name>.jbkc` without extras)
+        let cname: String = if case % 3 == 1 { "n".repeat(if extra > 0 { 201 } else if mode == Mode::NoConcat { 207 } else { 208 }) } else { "c".to_string() };
+        ctx.count(&format!("name_len:{}", cname.len()));
+        let entry = match util::guarded(|| container::build(&dir, &cname, &spec)) {
             Ok(Ok(p)) => p,
             other => {
                 ctx.fail(case, "create", &format!("creation failed: {:?}", other));
